@@ -257,9 +257,22 @@ def run_case(ctx, case):
         kw.pop('chars')
     for k_ in kw:
         ctx.see('rectgeo_option', k_ if k_ != 'block_order' else 'block_order=%s' % kw[k_])
+    def grid_state():
+        return ([(b.name, b.volume, None if b.centre is None else tuple(float(x) for x in b.centre), b.rocktype.name) for b in g.blocklist],
+                [(k.block[0].name, k.block[1].name, tuple(float(x) for x in k.distance), k.area, k.direction, k.dircos) for k in g.connectionlist])
+    before = grid_state()
     with ctx.guard(case, where='rectgeo:' + mech) as gd:
         G2, bm = g.rectgeo(atmos_volume=1e25, convention=case['convention'], atmos_type=case['atmos_type'], **kw)
     if gd.raised is not None:
+        return
+    # the grid is what the geometry is reconstructed FROM: it is still the same grid afterwards (it is written to a file,
+    # reconstructed from again, compared with)
+    after = grid_state()
+    ctx.count('grids_compared_before_and_after_reconstruction')
+    if after != before:
+        k_ = next(i for i, (x, y) in enumerate(zip(before[0] + before[1], after[0] + after[1])) if x != y)
+        ctx.violation('grid-changed-by-reconstruction:' + mech, 'rectgeo() changed the grid it was called on: %r became %r' % (
+            (before[0] + before[1])[k_], (after[0] + after[1])[k_]), case)
         return
     ctx.evaluated()
     ctx.count('reconstructions')
